@@ -15,7 +15,7 @@ ASSUMPTIONS = ["trees are well formed (tokens 1..n, no childless constituent)"]
 
 
 HIST = ["root_attach", "punctuation_root", "punctuation_verylow", "punctuation_symetrify", "heads+boyd_split+raising",
-        "punctuation_delete"]
+        "punctuation_delete", "add_topnode", "collapse_unary_chains"]
 
 
 def pathmap(root):
@@ -26,7 +26,9 @@ def pathmap(root):
 
 
 def ep(m, node):
-    return "-" if node is None else proto.enc_path(m[id(node)])
+    if node is None:
+        return "-"
+    return proto.enc_path(m[id(node)]) if id(node) in m else "not-a-node-of-the-tree"
 
 
 def nav_case(tree, group, desc, light=False):
@@ -70,6 +72,25 @@ def nav_case(tree, group, desc, light=False):
         nums = ";".join(proto.enc_on(proto.node_at(cp, p).data.get('num')) for p in paths)
         lines.append(Line("corr", "export_numbering", [t], nums))
         lines.append(Line("pred", "P.C19.numbering", [t, nums]))
+        # every node of a tree is a tree: the traversals started at inner nodes and at tokens stay inside that subtree
+        inner = nodes[1:] if len(nodes) <= 12 else [nodes[i] for i in sorted(set([1, 2, len(nodes) // 2, len(nodes) - 2, len(nodes) - 1]))]
+        for n in inner[:(3 if light else 40)]:
+            sm = pathmap(n)
+            st = proto.enc_tree(n)
+            try:
+                spre = " ".join(ep(sm, x) for x in trees.preorder(n))
+                spost = " ".join(ep(sm, x) for x in trees.postorder(n))
+                ste = ",".join(str(x.data['num']) for x in trees.terminals(n))
+                slev, srev = trees.levels(n)
+                slevs = ";".join("%s=%d" % (ep(sm, x), srev[x]) for x in trees.preorder(n) if x in srev)
+            except KeyError:
+                spre = spost = ste = slevs = "left-the-subtree"          # levels() keyed by a node outside
+            lines.append(Line("corr", "preorder", [st], spre, note="started at an inner node"))
+            lines.append(Line("pred", "P.C19.preorder", [st, spre], note="started at an inner node"))
+            lines.append(Line("corr", "postorder", [st], spost, note="started at an inner node"))
+            lines.append(Line("pred", "P.C19.postorder", [st, spost], note="started at an inner node"))
+            lines.append(Line("corr", "terminals", [st], ste, note="started at an inner node"))
+            lines.append(Line("corr", "levels", [st], slevs, note="started at an inner node"))
     ncons = sum(1 for n in nodes if n.children) - 1
     return Case(group, desc, lines, nontrivial=ncons > 0)
 
